@@ -44,6 +44,9 @@ type c17Config struct {
 	// Fallback: the Client has a fallback port (WithTLSPortPolicy(TLSOpportunistic): 587, then 25); nothing listens on
 	// the primary port, the server that goes silent is the one reached through the fallback port
 	Fallback bool `json:"fallback_port,omitempty"`
+	// NMsgs > 1: the judged call carries a batch of that many messages (the timeout bounds the call, whatever the number
+	// of transactions in it)
+	NMsgs int `json:"messages_in_the_call,omitempty"`
 }
 
 type c17Case struct {
@@ -133,6 +136,11 @@ func runC17Case(r *ev.Run, c c17Case) int {
 		body += body
 	}
 	msg, _ := simpleMsg("c17", "m0@sender.example", rc, "quoted-printable", body)
+	batch := []*mail.Msg{msg}
+	for k := 1; k < cfg.NMsgs; k++ {
+		mk, _ := simpleMsg(fmt.Sprintf("c17-%d", k), fmt.Sprintf("m%d@sender.example", k), rc, "quoted-printable", body[:600])
+		batch = append(batch, mk)
+	}
 
 	// phases: setup (not judged) and the judged call
 	var callErr error
@@ -168,7 +176,7 @@ func runC17Case(r *ev.Run, c c17Case) int {
 			mu.Lock()
 			callStart = time.Now()
 			mu.Unlock()
-			callErr = cl.DialAndSendWithContext(ctx, msg)
+			callErr = cl.DialAndSendWithContext(ctx, batch...)
 		case "send":
 			if err := cl.DialWithContext(ctx); err != nil {
 				setupFailed = true
@@ -177,7 +185,7 @@ func runC17Case(r *ev.Run, c c17Case) int {
 			mu.Lock()
 			callStart = time.Now()
 			mu.Unlock()
-			callErr = cl.Send(msg)
+			callErr = cl.Send(batch...)
 		case "reset":
 			if err := cl.DialWithContext(ctx); err != nil {
 				setupFailed = true
@@ -225,7 +233,7 @@ func runC17Case(r *ev.Run, c c17Case) int {
 	stallVerb := "none"
 	steps := 0
 	var stallTick int64
-	var logR []faultio.ReadObs
+	var logR, logW []faultio.ReadObs
 	sess, conns := farm.Snapshot()
 	if len(sess) > judged {
 		cmds, _, _ := sess[judged].Snapshot()
@@ -244,7 +252,7 @@ func runC17Case(r *ev.Run, c c17Case) int {
 	var pendR, pendW []faultio.ReadObs
 	if len(conns) > judged {
 		pendR, pendW = conns[judged].PendingIO()
-		logR, _ = conns[judged].IOLog()
+		logR, logW = conns[judged].IOLog()
 	}
 	mu.Lock()
 	cs, ret, retAt := callStart, returned, returnedAt
@@ -293,7 +301,13 @@ func runC17Case(r *ev.Run, c c17Case) int {
 		var granted time.Duration
 		nTimedOut := 0
 		var obs []string
-		for _, o := range logR {
+		ios := append([]faultio.ReadObs{}, logR...)
+		if cfg.TLS == "none" {
+			// writes that ran into their deadline count as well - where no TLS layer sits in between (crypto/tls arms a
+			// fixed 5 s deadline of its own for the close_notify alert, which is not the client's doing)
+			ios = append(ios, logW...)
+		}
+		for _, o := range ios {
 			if ret && !o.At.Before(retAt) {
 				continue // a read of the follow-up call: every call has its own timeout
 			}
@@ -304,7 +318,7 @@ func runC17Case(r *ev.Run, c c17Case) int {
 						granted += d
 					}
 					nTimedOut++
-					obs = append(obs, fmt.Sprintf("read armed with %v", o.Deadline.Sub(o.At).Round(time.Millisecond)))
+					obs = append(obs, fmt.Sprintf("read/write armed with %v", o.Deadline.Sub(o.At).Round(time.Millisecond)))
 				}
 			}
 		}
@@ -361,6 +375,10 @@ func c17Configs(thorough bool) []c17Config {
 			c17Config{Name: call + "-auth-plain", Call: call, TLS: "none", Caps: with("AUTH PLAIN LOGIN"), Auth: "PLAIN", NRcpt: 1, TimeoutMS: tmo},
 			c17Config{Name: call + "-auth-login", Call: call, TLS: "none", Caps: with("AUTH LOGIN"), Auth: "LOGIN", NRcpt: 1, TimeoutMS: tmo},
 		)
+		if call == "send" || call == "dialandsend" {
+			// a batch of messages in one call
+			cfgs = append(cfgs, c17Config{Name: call + "-batch", Call: call, TLS: "none", Caps: all, NRcpt: 1, TimeoutMS: tmo, NMsgs: 3})
+		}
 		if thorough || call == "dial" {
 			cfgs = append(cfgs,
 				c17Config{Name: call + "-helo-fallback", Call: call, TLS: "none", Caps: all, RefuseEHLO: true, NRcpt: 1, TimeoutMS: tmo},
@@ -397,7 +415,7 @@ func c17Configs(thorough bool) []c17Config {
 
 func runC17(r *ev.Run, rep *ev.ReplayDoc) ev.Summary {
 	sum := ev.Summary{
-		Rule: "for DialWithContext, DialAndSend, Send and Reset x {no TLS, STARTTLS} x {no auth, PLAIN, LOGIN, AUTH after STARTTLS, HELO fallback} x {context.Background, a caller context whose own deadline is an hour away} x {fresh Client, Client that has just completed a healthy DialAndSend} x {primary port, connection obtained through the fallback port after the primary port refused}: the reference server goes silent (holding the connection; not reading any more, or still reading but never replying) at every command position of the dialogue in turn - greeting, EHLO, HELO, STARTTLS reply, inside the TLS handshake, post-TLS EHLO, every AUTH step, NOOP, MAIL, each RCPT, DATA, inside the content, end-of-data reply, RSET, QUIT. The tracking conn records the deadline armed at the entry of every Read/Write. After a stalled Send / Reset has returned its error, the other one of the two is called on the same Client and has to return, too. non-trivial = the stall point was reached; distinct by (configuration, stall point)",
+		Rule: "for DialWithContext, DialAndSend, Send and Reset x {no TLS, STARTTLS} x {no auth, PLAIN, LOGIN, AUTH after STARTTLS, HELO fallback} x {context.Background, a caller context whose own deadline is an hour away} x {fresh Client, Client that has just completed a healthy DialAndSend} x {primary port, connection obtained through the fallback port after the primary port refused}: the reference server goes silent (holding the connection; not reading any more, or still reading but never replying) at every command position of the dialogue in turn - greeting, EHLO, HELO, STARTTLS reply, inside the TLS handshake, post-TLS EHLO, every AUTH step, NOOP, MAIL, each RCPT, DATA, inside the content, end-of-data reply, RSET, QUIT. Send and DialAndSend also with a batch of three messages in the call. The tracking conn records the deadline armed at the entry of every Read/Write. After a stalled Send / Reset has returned its error, the other one of the two is called on the same Client and has to return, too. non-trivial = the stall point was reached; distinct by (configuration, stall point)",
 		Assumptions: []string{
 			"generous bound: a call counts as blocked only if it has not returned max(20 x timeout, 5 s) + timeout after it started",
 			"violation = still blocked AND the pending network operation was entered without a deadline (the logical cause); blocked with a deadline armed = inconclusive",
@@ -438,7 +456,7 @@ func runC17(r *ev.Run, rep *ev.ReplayDoc) ev.Summary {
 		var cs []c17Case
 		for pos := 0; pos < steps; pos++ {
 			cs = append(cs, c17Case{Cfg: cfgs[i], Script: []scriptEntry{{Index: pos, Kind: "stall"}}})
-			if cfgs[i].Call == "send" || cfgs[i].Call == "reset" || r.Thorough() {
+			if cfgs[i].Call == "send" || cfgs[i].Call == "reset" || cfgs[i].NMsgs > 1 || r.Thorough() {
 				// the server never answers again but keeps reading: the client's writes succeed, only its reads run into the deadline
 				cs = append(cs, c17Case{Cfg: cfgs[i], Script: []scriptEntry{{Index: pos, Kind: "mute"}}})
 			}
